@@ -43,7 +43,7 @@ def budget(tier):
     return {"examples": 450, "shards": 1} if tier == "quick" else {"examples": 2500, "shards": 16}
 
 
-KINDS = ["in_unit", "in_unit", "in_unit", "eq", "lt", "add"]
+KINDS = ["in_unit", "in_unit", "in_unit", "eq", "lt", "add", "m_add", "m_sub"]
 
 
 def strategy(tier):
@@ -93,9 +93,19 @@ def strategy(tier):
 
         final = query()
         steps = [["decl", i] for i in range(ndecl)]
-        if ndecl and draw(convgen.INT10) < 3:
+        if ndecl and draw(convgen.INT10) < 4:
             i = draw(synth._int(0, ndecl - 1))
-            steps.insert(draw(synth._int(i + 1, len(steps))), ["redecl", i, draw(st.sampled_from([[7, 1], [1, 2], [3, 1]]))])
+            pos = draw(synth._int(i + 1, len(steps)))
+            steps.insert(pos, ["redecl", i, draw(st.sampled_from([[7, 1], [1, 2], [3, 1]]))])
+            # half of the time the history asks about exactly the re-declared pair: before the
+            # re-declaration (old ratio), and as the final query (new ratio)
+            flat = [(f["dim"][0].upper(), e) for f in spec["fams"] for e in f["edges"]]
+            if i < len(flat) and draw(convgen.INT10) < 7:
+                tag, (ci, pj, _p, _f) = flat[i]
+                e = draw(st.sampled_from([1, 1, 2]))
+                final = {"src": [["", f"{tag}{ci}", e]], "dst": [["", f"{tag}{pj}", e]], "mag": draw(MAG),
+                         "kind": draw(st.sampled_from(["in_unit", "add", "eq", "m_add", "m_sub", "m_add"]))}
+                steps.insert(draw(synth._int(i + 1, pos)), ["query", dict(final)])
         names = synth.unit_names(spec)
 
         def other_unit(u):
@@ -162,8 +172,15 @@ def _exec_query(sw, q):
             r = a == b
         elif kind == "lt":
             r = a < b
-        else:
+        elif kind == "add":
             r = a + b
+        else:
+            # uncertain measurements: the propagated uncertainty converts between the units too
+            ma, mb = m.Measurement(a, 0.5), m.Measurement(b, 0.25)
+            r = ma + mb if kind == "m_add" else ma - mb
+            u = r.measurand.unit
+            desc = (tuple(sorted((f.name or "?", e) for f, e in u.factors.items())), u.prefix.base, u.prefix.exponent)
+            return ("m", r.measurand.magnitude, desc, r.uncertainty.magnitude)
     except Exception as e:  # noqa
         return ("exc", type(e).__name__)
     if isinstance(r, bool):
@@ -180,6 +197,8 @@ def _same(r1, r2, tol=1e-12):
         return True
     if r1[0] != r2[0]:
         return False
+    if r1[0] == "m":
+        return _same(("v",) + tuple(r1[1:3]), ("v",) + tuple(r2[1:3]), tol) and _same(("v", r1[3], r1[2]), ("v", r2[3], r2[2]), tol)
     if r1[0] == "v":
         if r1[2] != r2[2]:
             return False
@@ -236,7 +255,7 @@ def _run_world(spec, steps, final, interleaved, out=None):
             r1 = _exec_query(sw, q)
             r2 = _exec_query(sw, q)
             if out is not None and r1 is not None:
-                same = r1 == r2 or (r1[0] == "v" and r2[0] == "v" and repr(r1[1]) == repr(r2[1]) and r1[2] == r2[2])
+                same = r1 == r2 or (r1[0] in ("v", "m") and r2[0] == r1[0] and repr(r1[1:]) == repr(r2[1:]))
                 if not same:
                     out.fail("C08:repeat", f"the same query gave {r1} and then {r2}: {q}")
                 _linked_clause(out, sw, q, r1, edges, "during")
@@ -296,6 +315,9 @@ def run_case(case) -> core.Outcome:
         out.sample = {"units": len(swa.units), "steps": [s[0] if s[0] != "query" else f"query:{s[1].get('kind')}" for s in steps], "final": final, "outcome": list(map(str, ra))}
     if any(s[0] == "redecl" for s in steps):
         out.classes.append("redeclaration")
+        k = next(i for i, s in enumerate(steps) if s[0] == "redecl")
+        if any(s[0] == "query" and s[1].get("src") == final.get("src") and s[1].get("dst") == final.get("dst") for s in steps[:k]):
+            out.classes.append("redeclared-pair-queried-before:" + str(final.get("kind")))
     return out
 
 
@@ -324,7 +346,7 @@ def worker_post(tier, col):
             got = json.loads(p.stdout)[0]
         finally:
             os.unlink(path)
-        want = None if rb is None else [rb[0], repr(rb[1]) if len(rb) > 1 else None, repr(rb[2]) if len(rb) > 2 else None]
+        want = None if rb is None else [rb[0]] + [repr(x) for x in rb[1:]]
         checked += 1
         if got != want:
             o = core.Outcome()
